@@ -21,7 +21,8 @@ RULE = ("case = (mode, template built from segments [data | {{ name }} | for-loo
         "sandboxed-native render. Plus single-node constant expressions with a known value. "
         "distinct = distinct (mode, segment-kind sequence, value kinds, expected-result kind) with "
         ">=1 variable segment")
-LEVEL_TEXT = ("held on K generated (template, data, mode) executions against the documented three-"
+LEVEL_TEXT = ("held (modulo listed known findings) on K generated (template, data, mode) executions "
+              "+ a 45-row table of constant expressions against the documented three-"
               "sentence model; values cover ints/floats/bools/None/containers/custom objects/"
               "literal-looking strings; not all templates")
 ASSUMPTIONS = [
@@ -32,15 +33,18 @@ ASSUMPTIONS = [
 NSHARDS = {"quick": 16, "thorough": 16}
 BUDGET_S = {"quick": 12, "thorough": 300}
 FLOORS = {
-    "quick": {"evaluations": 8000, "distinct": 2000,
-              "counters": {"identity_checks": 1800, "literal_results": 2000, "text_results": 2000,
-                           "mode:sync.render": 2500, "mode:async.render_async": 2500,
-                           "mode:async.render": 1200, "const_expr_checks": 100}},
-    "thorough": {"evaluations": 150000, "distinct": 15000,
-                 "counters": {"identity_checks": 30000, "literal_results": 35000,
-                              "text_results": 35000, "mode:sync.render": 40000,
-                              "mode:async.render_async": 40000, "mode:async.render": 20000,
-                              "const_expr_checks": 100}},
+    # both tiers are count-bounded on this machine: quick 33.8k evaluations /
+    # 11.2k distinct, thorough 1.44M / 269k
+    "quick": {"evaluations": 8000, "distinct": 2800,
+              "counters": {"identity_checks": 2300, "literal_results": 2500, "text_results": 2900,
+                           "mode:sync.render": 2700, "mode:async.render_async": 2700,
+                           "mode:async.render": 1350, "mode:sandbox.render": 1350,
+                           "const_expr_checks": 100}},
+    "thorough": {"evaluations": 350000, "distinct": 65000,
+                 "counters": {"identity_checks": 100000, "literal_results": 110000,
+                              "text_results": 130000, "mode:sync.render": 120000,
+                              "mode:async.render_async": 120000, "mode:async.render": 60000,
+                              "mode:sandbox.render": 60000, "const_expr_checks": 100}},
 }
 
 MODES = ["sync.render", "async.render_async", "async.render", "sandbox.render"]
@@ -469,12 +473,21 @@ CONST_EXPRS = [
     ("[{% for item in data %}{{ item + 1 }},{% endfor %}]", "eq", [1, 2, 3, 4, 5]),
     ("{{ x }} * {{ y }}", "eq", "4 * 2"), ("0.000{{ a7 }}", "eq", 0.0007),
     ("--host='{{ host }}' --user \"{{ user }}\"", "eq", "--host='localhost' --user \"Jinja\""),
+    # a single node whose (constant-folded) value is a float without a literal
+    # form: still "a single non-string value".  4th field = mechanism label
+    # (mode-independent key)
+    ("{{ 'inf'|float }}", "eq", math.inf, "folded-nonfinite-float-becomes-text"),
+    ("{{ 1e999 }}", "eq", math.inf, "folded-nonfinite-float-becomes-text"),
+    ("{{ 'nan'|float }}", "eq", math.nan, "folded-nonfinite-float-becomes-text"),
+    ("{{ [1e999, 1] }}", "eq", [math.inf, 1], "folded-nonfinite-float-becomes-text"),
+    ("{{ x * 1e999 }}", "eq", math.inf), ("{{ inf_s|float }}", "eq", math.inf),
 ]
-CONST_DATA = {"x": 4, "y": 2, "a7": 7, "host": "localhost", "user": "Jinja"}
+CONST_DATA = {"x": 4, "y": 2, "a7": 7, "host": "localhost", "user": "Jinja", "inf_s": "inf"}
 
 
 def check_const(ctx, mode, i):
-    src, how, exp = CONST_EXPRS[i]
+    src, how, exp = CONST_EXPRS[i][:3]
+    label = CONST_EXPRS[i][3] if len(CONST_EXPRS[i]) > 3 else None
     values = dict(CONST_DATA, data=range(5))
     ctx.ev()
     ctx.count("const_expr_checks")
@@ -498,8 +511,9 @@ def check_const(ctx, mode, i):
         ok = not isinstance(got, (str, list, tuple)) and hasattr(got, "__iter__") and \
             [list(x) if not isinstance(x, (str, int, tuple)) else x for x in got] == exp
     if not ok:
-        ctx.violation(f"{mode}:const-expr:{how}", f"{src!r}: expected {how} {exp!r}, got "
-                                                 f"{type(got).__name__} {got!r}", rec)
+        ctx.violation(f"const-expr:{label}" if label else f"{mode}:const-expr:{how}",
+                      f"{mode}: {src!r}: expected {how} {exp!r}, got {type(got).__name__} {got!r}",
+                      rec)
     ctx.dist((mode, "const", i))
 
 
